@@ -118,8 +118,13 @@ def run_worker(module, args, scratch, timeout=None, stdin=None, extra_env=None):
 
 
 # ---------------------------------------------------------------------------------------- cache
+def cache_root():
+    # mutation self-tests point this at a directory inside their scratch copy, so caches of mutated trees never meet the real one
+    return os.environ.get("VERIF_CACHE_DIR") or os.path.join(VERIF, ".cache")
+
+
 def cache_dir(repo_hash, name):
-    d = os.path.join(VERIF, ".cache", repo_hash[:24], name)
+    d = os.path.join(cache_root(), repo_hash[:24], name)
     os.makedirs(d, exist_ok=True)
     return d
 
@@ -136,7 +141,7 @@ def locked(path):
 
 
 def prune_cache(keep_hash):
-    root = os.path.join(VERIF, ".cache")
+    root = cache_root()
     if not os.path.isdir(root):
         return
     for d in os.listdir(root):
